@@ -8,6 +8,7 @@ import (
 	"os/exec"
 	"path/filepath"
 	"regexp"
+	"sort"
 	"strings"
 	"time"
 
@@ -100,11 +101,35 @@ func (s c09State) prepare(h *Home) {
 	}
 }
 
-var c09TidRe = regexp.MustCompile(`^(\d+)\s`)
+var c09TidRe = regexp.MustCompile(`^(\d+)\s+([a-z0-9_]+)\(`)
+
+// c09Count parses a strace -f log: for each system call name, the largest number of invocations by one thread.
+func c09Count(trace []byte) map[string]int {
+	per := map[string]int{}
+	for _, l := range strings.Split(string(trace), "\n") {
+		if m := c09TidRe.FindStringSubmatch(l); m != nil {
+			per[m[1]+" "+m[2]]++
+		}
+	}
+	out := map[string]int{}
+	for k, c := range per {
+		name := strings.SplitN(k, " ", 2)[1]
+		if c > out[name] {
+			out[name] = c
+		}
+	}
+	return out
+}
 
 // c09Run runs the operation under an optional RLIMIT_FSIZE (k >= 0) and an
 // optional kill before the n-th traced system call of a thread (n > 0).
 func c09Run(ctx *Ctx, h *Home, op c09Op, k int64, n int, traceOut string) CLIResult {
+	return c09RunSys(ctx, h, op, k, "", n, traceOut)
+}
+
+// c09RunSys: strace counts invocations per system call, so a crash point is (system call name, n): the process is
+// killed on entering its n-th invocation of that call (in the thread that makes it).
+func c09RunSys(ctx *Ctx, h *Home, op c09Op, k int64, sys string, n int, traceOut string) CLIResult {
 	var argv []string
 	if n > 0 || traceOut != "" {
 		argv = []string{"strace", "-f", "-qq"}
@@ -115,7 +140,10 @@ func c09Run(ctx *Ctx, h *Home, op c09Op, k int64, n int, traceOut string) CLIRes
 		}
 		argv = append(argv, "-e", "trace="+c09Syscalls)
 		if n > 0 {
-			argv = append(argv, "-e", fmt.Sprintf("inject=%s:signal=SIGKILL:when=%d", c09Syscalls, n))
+			if sys == "" {
+				sys = c09Syscalls
+			}
+			argv = append(argv, "-e", fmt.Sprintf("inject=%s:signal=SIGKILL:when=%d", sys, n))
 		}
 	}
 	if k >= 0 {
@@ -176,26 +204,14 @@ func engineCrashWrite(ctx *Ctx) {
 				}
 			}
 			// count traced system calls per thread (fault-free, under the same wrappers)
-			maxCalls := map[int64]int{}
+			maxCalls := map[int64]map[string]int{}
 			for _, k := range []int64{-1, 0} {
 				st.prepare(h)
 				tr := filepath.Join(base, "trace.txt")
 				os.Remove(tr)
 				c09Run(ctx, h, op, k, 0, tr)
 				tb, _ := os.ReadFile(tr)
-				per := map[string]int{}
-				for _, l := range strings.Split(string(tb), "\n") {
-					if m := c09TidRe.FindStringSubmatch(l); m != nil && !strings.Contains(l, "<... ") {
-						per[m[1]]++
-					}
-				}
-				mx := 0
-				for _, c := range per {
-					if c > mx {
-						mx = c
-					}
-				}
-				maxCalls[k] = mx
+				maxCalls[k] = c09Count(tb)
 			}
 			verdict := func(cs map[string]interface{}, flavour string, res CLIResult) {
 				got, rerr := os.ReadFile(target)
@@ -287,32 +303,133 @@ func engineCrashWrite(ctx *Ctx) {
 			}
 			// flavours 2+3: process killed before its n-th system call, with and without a short write before
 			for _, k := range []int64{-1, L / 3, 0} {
-				mc := maxCalls[-1]
+				counts := map[string]int{}
+				for name, c := range maxCalls[-1] {
+					counts[name] = c
+				}
 				if k >= 0 {
-					mc = maxCalls[0]
-					if maxCalls[-1]+4 > mc {
-						mc = maxCalls[-1] + 4
+					for name, c := range maxCalls[0] {
+						if c > counts[name] {
+							counts[name] = c
+						}
 					}
 				}
-				for n := 1; n <= mc+2; n++ {
-					if !mine() {
-						continue
+				names := make([]string, 0, len(counts))
+				for name := range counts {
+					names = append(names, name)
+				}
+				sort.Strings(names)
+				for _, sys := range names {
+					for n := 1; n <= counts[sys]+1; n++ {
+						if !mine() {
+							continue
+						}
+						cs := map[string]interface{}{"op": op.Name, "state": st.Name, "flavour": "killed-on-entering-nth-call", "syscall": sys, "k": k, "n": n, "new_len": L, "old_len": len(old)}
+						ctx.R.Begin(cs)
+						ctx.R.Eval(1)
+						st.prepare(h)
+						res := c09RunSys(ctx, h, op, k, sys, n, "")
+						if res.Signal != "" || res.RC == 137 {
+							ctx.R.Nontriv(op.Name, st.Name, "kill", k, sys, n)
+							ctx.R.Path("faults-killed", 1)
+							ctx.R.Path("killed-on:"+sys, 1)
+						} else {
+							ctx.R.Path("kill-point-not-reached", 1)
+						}
+						verdict(cs, "kill", res)
 					}
-					cs := map[string]interface{}{"op": op.Name, "state": st.Name, "flavour": "killed-before-nth-syscall", "k": k, "n": n, "new_len": L, "old_len": len(old)}
-					ctx.R.Begin(cs)
-					ctx.R.Eval(1)
-					st.prepare(h)
-					res := c09Run(ctx, h, op, k, n, "")
-					if res.Signal != "" || res.RC == 137 {
-						ctx.R.Nontriv(op.Name, st.Name, "kill", k, n)
-						ctx.R.Path("faults-killed", 1)
-					} else {
-						ctx.R.Path("kill-point-not-reached", 1)
-					}
-					verdict(cs, "kill", res)
 				}
 			}
-			ctx.R.Sample(map[string]interface{}{"op": op.Name, "state": st.Name, "new_len": L, "syscalls_fault_free": maxCalls[-1], "k_values": len(ks)})
+			ctx.R.Sample(map[string]interface{}{"op": op.Name, "state": st.Name, "new_len": L, "syscalls_fault_free": fmt.Sprint(maxCalls[-1]), "k_values": len(ks)})
+		}
+	}
+	// Flavour 4: a killed LONG write followed by an ordinary SHORTER write. Whatever the killed write left behind
+	// (a temporary file, a partial file) must not leak into the result of the next successful write: everything
+	// saved earlier stays loadable after any such event.
+	longDesc := strings.Repeat("a very long description that makes the interrupted write large ", 60)
+	type follow struct {
+		name          string
+		st            c09State
+		op1, op2      c09Op
+		checkNotebook bool
+	}
+	follows := []follow{
+		{"notebook: killed long save, then short save", states[2],
+			c09Op{"save", []string{"save", "--", "echo long-one", longDesc}, "notebook", "saved successfully"},
+			c09Op{"save", []string{"save", "--", "echo short-two", "s"}, "notebook", "saved successfully"}, true},
+		{"history: killed search with a long query, then history --clear", states[2],
+			c09Op{"search", []string{"--database", mainP, "--all-platforms", "--", strings.Repeat("verylongqueryword ", 50)}, "history", ""},
+			c09Op{"history", []string{"history", "--clear"}, "history", "cleared successfully"}, false},
+	}
+	for _, fw := range follows {
+		fw.st.prepare(h)
+		tr := filepath.Join(base, "trace2.txt")
+		os.Remove(tr)
+		c09Run(ctx, h, fw.op1, -1, 0, tr)
+		tb, _ := os.ReadFile(tr)
+		counts := c09Count(tb)
+		var points [][2]interface{}
+		for _, sys := range []string{"write", "fsync", "fdatasync", "rename", "renameat", "renameat2", "close", "openat", "unlink", "unlinkat"} {
+			for n := 1; n <= counts[sys]; n++ {
+				points = append(points, [2]interface{}{sys, n})
+			}
+		}
+		for _, pt := range points {
+			sys, n := pt[0].(string), pt[1].(int)
+			if !mine() {
+				continue
+			}
+			cs := map[string]interface{}{"scenario": fw.name, "flavour": "killed-long-write-then-shorter-write", "syscall": sys, "n": n}
+			ctx.R.Begin(cs)
+			ctx.R.Eval(1)
+			fw.st.prepare(h)
+			res1 := c09RunSys(ctx, h, fw.op1, -1, sys, n, "")
+			killed := res1.Signal != "" || res1.RC == 137
+			var before []string
+			if fw.checkNotebook {
+				if db, err := database.LoadDatabase(h.Personal()); err == nil {
+					for _, c := range db.Commands {
+						before = append(before, c.Command)
+					}
+				} else {
+					continue // already reported by the first flavours
+				}
+			}
+			res2 := c09Run(ctx, h, fw.op2, -1, 0, "")
+			ctx.R.Path("follow-up-writes", 1)
+			if killed {
+				ctx.R.Path("follow-up-after-kill", 1)
+				ctx.R.Nontriv("follow", fw.name, sys, n)
+			}
+			if bad, why := res2.Crashed(); bad || !strings.Contains(res2.Stdout, fw.op2.OkMsg) {
+				ctx.R.Violate(vlib.Violation{Property: "C09", Clause: "later-write-fails-after-interrupted-write", Path: fw.op2.Name + "/after-kill",
+					Detail: fmt.Sprintf("the ordinary operation after the interrupted one did not succeed: %v %s", why, vlib.Trunc(res2.Stdout, 200)), Witness: cs})
+				continue
+			}
+			if fw.checkNotebook {
+				db, err := database.LoadDatabase(h.Personal())
+				if err != nil {
+					ctx.R.Violate(vlib.Violation{Property: "C09", Clause: "earlier-entries-lost", Path: "save/after-kill",
+						Detail: "after a killed save followed by an ordinary save the notebook no longer loads: " + vlib.Trunc(err.Error(), 200), Witness: cs})
+					continue
+				}
+				ok := len(db.Commands) == len(before)+1
+				for i := 0; ok && i < len(before); i++ {
+					ok = db.Commands[i].Command == before[i]
+				}
+				if !ok || db.Commands[len(db.Commands)-1].Command != "echo short-two" {
+					ctx.R.Violate(vlib.Violation{Property: "C09", Clause: "earlier-entries-lost", Path: "save/after-kill",
+						Detail: fmt.Sprintf("after a killed save followed by an ordinary save the notebook holds %d entries, expected the %d earlier ones plus the new one", len(db.Commands), len(before)), Witness: cs})
+				}
+			} else {
+				b, _ := os.ReadFile(h.History())
+				key, okJ := c09HistKey(b)
+				if !okJ || !strings.HasSuffix(key, ";") || strings.Contains(key, "/") {
+					ctx.R.Violate(vlib.Violation{Property: "C09", Clause: "torn-file", Path: "history --clear/after-kill",
+						Detail:  fmt.Sprintf("after a killed search followed by `history --clear` the history file (%d bytes) is not a complete empty history (parses: %v)", len(b), okJ),
+						Witness: map[string]interface{}{"case": cs, "file_hex": fmt.Sprintf("%x", vlib.Trunc(string(b), 300))}})
+				}
+			}
 		}
 	}
 	ctx.R.Extra["strace_version"] = strings.TrimSpace(strings.SplitN(runOut("strace", "-V"), "\n", 2)[0])
